@@ -120,12 +120,14 @@ CLAIMED.update({
 
 CLAIMED.update({
  "C17": dict(
-   text="PARTIAL. Decided: every loaded rule group is registered exactly once with a fresh CheckerInfo that copies the group's name, tags, summary, before/after text and note field by field "
-        "and is marked EmbeddedRuleguard; the per-checker engine's group filter accepts exactly that group; getCheckersInfo hands out one entry per prototype (copy sharing the parameter map); "
-        "the doc sub-command prints one line per registered checker; the default value of -enable lists exactly the checkers without the experimental/opinionated/performance/security tag "
-        "(shared with C06). NOT decided, and not claimed: that the checked-in precompiled rule data equals what compiling checkers/rules/rules.go produces today (an equality between an "
-        "artefact and a generator run - no function carries it), and the rendered docs/overview.md (text templates).",
-   design="§7 C17", technique="contract-based deductive verification (call-site clauses, per-iteration postconditions; SMT)"),
+   text="PARTIAL. Decided: (a) the shipped rule data corresponds to the rule source - a static comparison of checkers/rules/rules.go (read with go/parser) and checkers/rulesdata/rulesdata.go, "
+        "nothing executed: every rule-group function and every m.Match(...) chain of the source has exactly one rule of the same group and line in the data with the same patterns in the same order, "
+        "the same report and suggestion templates, location variable and filter source text, and the data has no group without a source (about 560 generator-decided obligations); "
+        "(b) every loaded rule group is registered exactly once with a fresh CheckerInfo that copies the group's name, tags, summary, before/after text and note field by field and is marked "
+        "EmbeddedRuleguard; the per-checker engine's group filter accepts exactly that group; getCheckersInfo hands out one entry per prototype; the doc sub-command prints one line per registered "
+        "checker with its full name; the default value of -enable lists exactly the checkers without the experimental/opinionated/performance/security tag (shared with C06). NOT decided: what the "
+        "precompiler makes of helper closures inside filters (filters are compared by source text), and the rendered docs/overview.md (text templates).",
+   design="§7 C17", technique="contract-based deductive verification (call-site clauses, per-iteration postconditions; SMT) + generator-decided source/data correspondence"),
 })
 
 CLAIMED.update({
